@@ -348,6 +348,11 @@ func driveBastion(w *world.World, r bastionRun, tag, storeKind, embed string, li
 			l := w.Logs[w.P.Logs[0]]
 			text := ref.CheckpointText(l.Origin+"/not-configured", c.Size, c.Root, "")
 			c.CP = []byte(text + "\n" + l.Key.SignLegacy(text))
+			for j := w.Rng.Intn(3); j > 0; j-- { // sometimes with proof lines and a non-zero old size
+				h := make([]byte, 32)
+				w.Rng.Read(h)
+				c.Proof = append(c.Proof, h)
+			}
 		}
 		if w.Coincides(s.Log, rq, stored, c) {
 			events = append(events, skipEvent{E: "skip", Run: tag, K: k})
@@ -418,8 +423,8 @@ func classifyBody(w *world.World, rb []byte, text string) respBody {
 		}
 		ok := true
 		for _, sg := range note.Sigs {
-			v1, _ := w.WitKey.VerifyCosigV1(text, sg)
-			if !v1 && !w.WitKey.VerifyLegacy(text, sg) {
+			// the protocol's response is the witness' cosignature/v1 line(s)
+			if v1, _ := w.WitKey.VerifyCosigV1(text, sg); !v1 {
 				ok = false
 			}
 		}
